@@ -178,3 +178,31 @@ bad = [{'amplitude': int(free[k]), 'calc_fext': float(fext[k]), 'virtual_work': 
        if abs(fext[k] - spec_u[k]) > 1e-6*scale]
 out = {'n_mismatch': len(bad), 'first': bad[:8], 'size': size}
 '''
+
+TANGENT = COMMON + r'''
+cc = make(payload)
+cc.pdC = payload.get('pdC', True); cc.pdT = True
+cc.nx, cc.nt = payload.get('nx', 40), payload.get('nt', 48)
+cc.ni_num_cores = payload.get('cores', 2); cc.ni_method = payload.get('method', 'trapz2d')
+cc._rebuild()
+n = cc.get_size() - len(cc.excluded_dofs)
+rs = np.random.RandomState(payload.get('seed', 0))
+c = rs.uniform(-1, 1, size=n)*payload.get('amp', 0.2)
+kT = np.asarray(cc.calc_kT(c, inc=1., silent=True).todense())
+f0 = np.asarray(cc.calc_fint(c, inc=1., return_u=True, silent=True)).ravel()
+h = payload.get('h', 1e-3)
+J = np.zeros((n, n))
+for j in range(n):
+    e = np.zeros(n); e[j] = h
+    fp = np.asarray(cc.calc_fint(c + e, inc=1., return_u=True, silent=True)).ravel()
+    fm = np.asarray(cc.calc_fint(c - e, inc=1., return_u=True, silent=True)).ravel()
+    J[:, j] = (fp - fm)/(2*h)
+k0uu = np.asarray(cc.k0uu.todense())
+scale = abs(J - k0uu).max()      # size of the state-dependent part
+d = abs(kT - J)
+idx = np.argwhere(d > 1e-4*scale + 1e-13*abs(J).max()/h)
+zero = np.asarray(cc.calc_fint(np.zeros(n), inc=1., return_u=True, silent=True)).ravel()
+out = {'n': n, 'scale': float(scale), 'max_abs_difference': float(d.max()), 'asymmetry_of_kT': float(abs(kT - kT.T).max()),
+       'n_entries_off': int(len(idx)), 'first': [{'row': int(i), 'col': int(j), 'kT': float(kT[i, j]), 'dfint_dc': float(J[i, j])} for i, j in idx[:6]],
+       'fint_at_zero_max': float(abs(zero).max())}
+'''
